@@ -4,6 +4,7 @@ import (
 	"bufio"
 	"encoding/json"
 	"errors"
+	"math"
 	"os"
 	"strings"
 	"time"
@@ -41,6 +42,9 @@ func openHist(filename string) (list []Item, err error) {
 	}
 
 	scanner := bufio.NewScanner(file)
+	// a history item can be longer than bufio's default 64KiB token limit; if
+	// the limit is hit the scan stops and every later item would be lost
+	scanner.Buffer(make([]byte, 0, bufio.MaxScanTokenSize), math.MaxInt)
 	for scanner.Scan() {
 		var item Item
 		err := json.Unmarshal(scanner.Bytes(), &item)
